@@ -12,6 +12,7 @@ package main
 
 import (
 	"bytes"
+	"encoding/hex"
 	"fmt"
 	"os"
 	"os/exec"
@@ -296,7 +297,7 @@ func showKVs(kvs []storage.KeyValue, cut int) string {
 
 func (w *world) find(prefix, from []byte, max int) {
 	if w.dirty {
-		w.flush() // Find resolves nodes through a Billet over the store (trie.go:620)
+		w.o.Count("find:unflushed")
 	}
 	var res []storage.KeyValue
 	obs := hx.Safe(func() string {
@@ -371,7 +372,7 @@ func lcpB(a, b []byte) []byte {
 
 func (w *world) seek(prefix, start []byte, back bool) {
 	if w.dirty {
-		w.flush()
+		w.flush() // a TrieStore is opened from the root hash over the store
 	}
 	var got []storage.KeyValue
 	obs := hx.Safe(func() string {
@@ -382,7 +383,8 @@ func (w *world) seek(prefix, start []byte, back bool) {
 		})
 		return "seek " + showKVs(got, 1)
 	})
-	// reference = MemoryStore.seek (memory_store.go:100-140) on the same contents
+	// reference = MemoryStore.seek (memory_store.go:100-142) on the same contents: forwards the keys
+	// with suffix >= Start, backwards the keys with suffix <= Start or extending Start.
 	var want []string
 	var common []byte
 	first := true
@@ -398,7 +400,7 @@ func (w *world) seek(prefix, start []byte, back bool) {
 		}
 		if len(start) != 0 {
 			c := strings.Compare(suf, string(start))
-			if (!back && c < 0) || (back && c > 0) {
+			if (!back && c < 0) || (back && c > 0 && !strings.HasPrefix(suf, string(start))) {
 				continue
 			}
 		}
@@ -409,14 +411,11 @@ func (w *world) seek(prefix, start []byte, back bool) {
 			want[i], want[j] = want[j], want[i]
 		}
 	}
-	// Backwards with a non-empty Start: keys that properly extend prefix|start are returned by the
-	// disk backends and not by MemoryStore (a separate, known ambiguity of C09) — not judged here.
 	var gotKeys []string
 	for _, kv := range got {
 		k := string(kv.Key[1:])
 		if back && len(start) != 0 && len(k) > len(prefix)+len(start) && strings.HasPrefix(k[len(prefix):], string(start)) {
-			w.o.Count("seek:extends-start-skipped")
-			continue
+			w.o.Count("seek:back:extends-start")
 		}
 		gotKeys = append(gotKeys, k)
 	}
@@ -448,9 +447,9 @@ func (w *world) seek(prefix, start []byte, back bool) {
 		key := "seek-mismatch"
 		switch {
 		case len(start) != 0 && !first && len(l) < len(common) && len(l) < len(sn):
-			key = "triestore-seek-start-cmp" // the start node's path and Start diverge: trie_store.go:93 compares the wrong way round
+			key = "seek-start-path-diverges" // the start node's path and Start diverge (trie_store.go:87-94)
 		case back && len(start) != 0:
-			key = "billet-backward-seek" // billet.go:283-323 backwards traversal from a start position
+			key = "seek-backward-from-start" // billet.go:286-316 backwards traversal from a start position
 		}
 		w.o.Count("seek:oracle-fail:" + key)
 		w.o.Fail(key, w.k, "TrieStore.Seek(Prefix=%x, Start=%x, Backwards=%v) = %x, MemoryStore semantics give %x (keys %x)", prefix, start, back, gotKeys, want, sortedKeys(w.ref))
@@ -538,9 +537,9 @@ func (w *world) verify(root, key []byte, ps [][]byte, kind string) string {
 	w.o.Count("verify:" + kind + ":" + strings.SplitN(obs, " ", 2)[0])
 	switch obs {
 	case "loop":
-		w.o.Fail("verifyproof-hashnode-loop", w.k, "VerifyProof(%x, %x, %s) does not terminate (stack overflow, fatal)", root, key, hexList(ps))
+		w.o.Fail("verifyproof-no-termination", w.k, "VerifyProof(%x, %x, %s) does not terminate (stack overflow, fatal)", root, key, hexList(ps))
 	case "panic":
-		w.o.Fail("verifyproof-emptynode-panic", w.k, "VerifyProof(%x, %x, %s) panics", root, key, hexList(ps))
+		w.o.Fail("verifyproof-panics", w.k, "VerifyProof(%x, %x, %s) panics", root, key, hexList(ps))
 	}
 	if bytes.Equal(root, rootOf(w.tr)) && strings.HasPrefix(obs, "ok ") {
 		want, ok := w.ref[string(key)]
@@ -573,8 +572,7 @@ func unhex(s string) []byte {
 	if s == "-" {
 		return []byte{}
 	}
-	b := make([]byte, len(s)/2)
-	_, err := fmt.Sscanf(s, "%x", &b)
+	b, err := hex.DecodeString(s)
 	if err != nil {
 		panic(err)
 	}
